@@ -87,7 +87,6 @@ Section Sim.
 Variable F : fops.
 Variable bld : build.
 Variable P : program.
-Variable reenter : N -> state -> rres.
 
 (* the components a run of `main` in the fragment never changes *)
 Variable cap : nat.
@@ -149,7 +148,7 @@ Definition exec1 (c c' : cfg) : Prop :=
   let '(ip, stk, g) := c in
   let '(ip', stk', g') := c' in
   ip < code_len P /\
-  forall s rem, St s stk g rem ->
+  forall (reenter : N -> state -> rres) s rem, St s stk g rem ->
     exists s', step F bld P reenter ip s = SNext ip' s' /\ St s' stk' g' rem.
 
 Inductive steps : nat -> cfg -> cfg -> Prop :=
@@ -163,7 +162,7 @@ Lemma steps_1 a b : exec1 a b -> steps 1 a b.
 Proof. intros H. econstructor; [exact H | constructor]. Qed.
 
 (* the dispatch loop follows the steps when the budget allows *)
-Lemma loop_steps n : forall c c', steps n c c' ->
+Lemma loop_steps (reenter : N -> state -> rres) n : forall c c', steps n c c' ->
   forall fuel s rem, St s (snd (fst c)) (snd c) rem -> N.of_nat n < rem ->
     exists s', St s' (snd (fst c')) (snd c') (rem - N.of_nat n) /\
                loop F bld P reenter (n + fuel) (fst (fst c)) s = loop F bld P reenter fuel (fst (fst c')) s'.
@@ -173,7 +172,7 @@ Proof.
   - destruct c as [[ip stk] g], c1 as [[ip1 stk1] g1]. cbn [fst snd] in *.
     destruct H1 as [Hlt H1].
     pose proof (St_tick (N.pred rem) HS) as HS1.
-    destruct (H1 _ _ HS1) as (s1 & E1 & HS1').
+    destruct (H1 reenter _ _ HS1) as (s1 & E1 & HS1').
     destruct (IH fuel s1 _ HS1') as (s' & HS' & E'); [lia|].
     exists s'. split; [replace (rem - N.of_nat (S n)) with (N.pred rem - N.of_nat n) by lia; exact HS'|].
     cbn [Nat.add loop].
@@ -185,7 +184,7 @@ Proof.
 Qed.
 
 (* a dispatch that ends the run: Exit *)
-Lemma loop_exit fuel ip s stk g rem :
+Lemma loop_exit (reenter : N -> state -> rres) fuel ip s stk g rem :
   St s stk g rem -> code_at P ip IExit -> 1 < rem ->
   exists s', loop F bld P reenter (S fuel) ip s = Vm.ROk s' /\
              stack_of s' = stk /\ st_globals s' = g.
@@ -204,10 +203,10 @@ Qed.
 Definition exec_err (c : cfg) (e : err) : Prop :=
   let '(ip, stk, g) := c in
   ip < code_len P /\
-  forall s rem, St s stk g rem ->
+  forall (reenter : N -> state -> rres) s rem, St s stk g rem ->
     exists ip' s', step F bld P reenter ip s = SErr e ip' s' /\ st_globals s' = g.
 
-Lemma loop_err fuel c e s rem :
+Lemma loop_err (reenter : N -> state -> rres) fuel c e s rem :
   exec_err c e -> St s (snd (fst c)) (snd c) rem -> 1 < rem ->
   exists s', loop F bld P reenter (S fuel) (fst (fst c)) s = Vm.RErr e (fst (fst c)) s' /\ st_globals s' = snd c.
 Proof.
@@ -216,7 +215,7 @@ Proof.
   assert (Hr : st_rem s = rem) by (destruct HS as (_ & _ & _ & _ & _ & _ & _ & _ & Hr); exact Hr).
   rewrite Hr. cbn [st_rem set_rem].
   assert (Hz : (N.pred rem =? 0) = false) by (apply N.eqb_neq; lia). rewrite Hz.
-  destruct (H _ _ (St_tick (N.pred rem) HS)) as (ip' & s' & E & Hg). rewrite E. eauto.
+  destruct (H reenter _ _ (St_tick (N.pred rem) HS)) as (ip' & s' & E & Hg). rewrite E. eauto.
 Qed.
 
 (* ------------------------------------------------------------------ one lemma per opcode *)
@@ -228,7 +227,7 @@ Lemma ex_scalar_nil ip stk g :
   code_at P ip IScalarNil -> (S (length stk) < cap)%nat ->
   exec1 (ip, stk, g) (ip + 1, stk ++ [VNil], g).
 Proof.
-  intros Hc Hroom. split; [eapply code_at_lt; eauto|]. intros s rem HS. opc Hc.
+  intros Hc Hroom. split; [eapply code_at_lt; eauto|]. intros reenter s rem HS. opc Hc.
   destruct (St_push VNil HS Hroom) as (s' & E & HS'). unfold push_next. rewrite E. eauto.
 Qed.
 
@@ -237,7 +236,7 @@ Lemma ex_scalar_int ip z stk g :
   (S (length stk) < cap)%nat ->
   exec1 (ip, stk, g) (ip + 9, stk ++ [VInt z], g).
 Proof.
-  intros Hc Hz Hroom. split; [eapply code_at_lt; eauto|]. intros s rem HS. opc Hc.
+  intros Hc Hz Hroom. split; [eapply code_at_lt; eauto|]. intros reenter s rem HS. opc Hc.
   unfold i_5. rewrite (code_at_operand1 (w := 8) Hc eq_refl eq_refl (i64_to_u64_fits z)).
   rewrite i64_roundtrip by exact Hz.
   destruct (St_push (VInt z) HS Hroom) as (s' & E & HS'). unfold push_next. rewrite E.
@@ -277,7 +276,7 @@ Lemma ex_binop ip i op stk a b v g :
   code_at P ip i -> binop_sem i = Some op -> op heap0 a b = VOk v -> (S (length stk) < cap)%nat ->
   exec1 (ip, stk ++ [a; b], g) (ip + 1, stk ++ [v], g).
 Proof.
-  intros Hc Hi Hop Hroom. split; [eapply code_at_lt; eauto|]. intros s rem HS.
+  intros Hc Hi Hop Hroom. split; [eapply code_at_lt; eauto|]. intros reenter s rem HS.
   destruct i; try discriminate Hi; cbn [binop_sem] in Hi; injection Hi as Hi; subst op; opc Hc;
     eapply binary_op_St; eauto.
 Qed.
@@ -286,7 +285,7 @@ Lemma ex_not ip stk a bv g :
   code_at P ip INot -> as_bool F heap0 a = Some bv -> (S (length stk) < cap)%nat ->
   exec1 (ip, stk ++ [a], g) (ip + 1, stk ++ [vbool (negb bv)], g).
 Proof.
-  intros Hc Hb Hroom. split; [eapply code_at_lt; eauto|]. intros s rem HS. opc Hc.
+  intros Hc Hb Hroom. split; [eapply code_at_lt; eauto|]. intros reenter s rem HS. opc Hc.
   unfold i_27. destruct (St_pop _ _ HS) as (s1 & E1 & HS1). rewrite E1.
   assert (Hh : st_heap s1 = heap0) by (destruct HS1 as (_ & _ & _ & _ & Hh & _); exact Hh).
   rewrite Hh, Hb. unfold push_next.
@@ -305,7 +304,7 @@ Lemma ex_set_global ip id stk v g :
   code_at P ip (ISetGlobalVar id) -> id < 4294967296 ->
   exec1 (ip, stk ++ [v], g) (ip + 5, stk, gset g id v).
 Proof.
-  intros Hc Hid. split; [eapply code_at_lt; eauto|]. intros s rem HS. opc Hc.
+  intros Hc Hid. split; [eapply code_at_lt; eauto|]. intros reenter s rem HS. opc Hc.
   unfold i_17, op_u32. rewrite (code_at_operand1 (w := 4) Hc eq_refl eq_refl (fits4_lt Hid)).
   destruct (St_pop _ _ HS) as (s1 & E1 & HS1). rewrite E1.
   assert (Hg : st_globals s1 = g) by (destruct HS1 as (_ & _ & _ & _ & _ & _ & _ & Hg & _); exact Hg).
@@ -318,7 +317,7 @@ Lemma ex_read_global ip id stk v g :
   nth_error g (N.to_nat id) = Some (Some v) -> (S (length stk) < cap)%nat ->
   exec1 (ip, stk, g) (ip + 5, stk ++ [v], g).
 Proof.
-  intros Hc Hid Hv Hroom. split; [eapply code_at_lt; eauto|]. intros s rem HS. opc Hc.
+  intros Hc Hid Hv Hroom. split; [eapply code_at_lt; eauto|]. intros reenter s rem HS. opc Hc.
   unfold i_18, op_u32. rewrite (code_at_operand1 (w := 4) Hc eq_refl eq_refl (fits4_lt Hid)).
   assert (Hg : st_globals s = g) by (destruct HS as (_ & _ & _ & _ & _ & _ & _ & Hg & _); exact Hg).
   rewrite Hg, Hv. unfold push_next.
@@ -333,7 +332,7 @@ Lemma ex_read_global_err ip id stk g :
 Proof.
   intros Hc Hid Hv.
   exists (match assoc (handle_from_u32 id) (p_var_names P) with Some nm => nm | None => unknown_var_name end).
-  split; [eapply code_at_lt; eauto|]. intros s rem HS. opc Hc.
+  split; [eapply code_at_lt; eauto|]. intros reenter s rem HS. opc Hc.
   unfold i_18, op_u32. rewrite (code_at_operand1 (w := 4) Hc eq_refl eq_refl (fits4_lt Hid)).
   assert (Hg : st_globals s = g) by (destruct HS as (_ & _ & _ & _ & _ & _ & _ & Hg & _); exact Hg).
   rewrite Hg. destruct (nth_error g (N.to_nat id)) as [[v|]|] eqn:E.
@@ -355,7 +354,7 @@ Lemma ex_goto ip pc stk g :
   code_at P ip (IGoto (u32_to_i32 pc)) -> pc < 2147483648 ->
   exec1 (ip, stk, g) (pc, stk, g).
 Proof.
-  intros Hc Hpc. split; [eapply code_at_lt; eauto|]. intros s rem HS. opc Hc.
+  intros Hc Hpc. split; [eapply code_at_lt; eauto|]. intros reenter s rem HS. opc Hc.
   unfold i_28, op_u32. rewrite (code_at_operand1 (w := 4) Hc eq_refl eq_refl (i32_to_u32_fits _)).
   rewrite (jump_target_small Hpc). eauto.
 Qed.
@@ -366,7 +365,7 @@ Lemma ex_goto_if (jump_if : bool) ip pc stk c bv g :
   as_bool F heap0 c = Some bv ->
   exec1 (ip, stk ++ [c], g) (if Bool.eqb bv jump_if then pc else ip + 5, stk, g).
 Proof.
-  intros Hc Hpc Hb. split; [eapply code_at_lt; eauto|]. intros s rem HS.
+  intros Hc Hpc Hb. split; [eapply code_at_lt; eauto|]. intros reenter s rem HS.
   destruct (St_pop _ _ HS) as (s1 & E1 & HS1).
   assert (Hh : st_heap s1 = heap0) by (destruct HS1 as (_ & _ & _ & _ & Hh & _); exact Hh).
   destruct jump_if; opc Hc; unfold i_29_30, op_u32; rewrite E1;
